@@ -596,8 +596,20 @@ func (x *X) external(fr *Frame, st *State, fn *ssa.Function, args []SV, cc *ssa.
 					x.vc.assume(x.ile(ol, nl))
 					es := x.enc.sortOf(sl.Elem())
 					k := x.elemsKey(es)
-					st.mem[k] = x.vc.define("h", mkStore(x.get(st, k), nb, x.vc.fresh("appelems", arraySort(isz, es))))
-					x.enc.assumption("external " + name + ": appends to its destination slice in place or into a fresh array")
+					ne := x.vc.fresh("appelems", arraySort(isz, es))
+					// what was in the destination stays in front of what is appended
+					_, oo, _, _ := x.sliceParts(src)
+					_, no, _, _ := x.sliceParts(r)
+					oe := mkSelect(x.get(st, k), ob, arraySort(isz, es))
+					if !x.enc.bv {
+						x.vc.assume(T(SBool, fmt.Sprintf("(forall ((i Int)) (! (=> (and (<= 0 i) (< i %s)) (= (select %s (+ %s i)) (select %s (+ %s i)))) :pattern ((select %s (+ %s i)))))", ol.S, ne.S, no.S, oe.S, oo.S, ne.S, no.S)))
+						// the first and the last element of the prefix, spelled out (the
+						// solvers do not match index arithmetic reliably)
+						x.vc.assume(mkImplies(x.ilt(x.ic(0), ol), mkEq(mkSelect(ne, no, es), mkSelect(oe, oo, es))))
+						x.vc.assume(mkImplies(x.ilt(x.ic(0), ol), mkEq(mkSelect(ne, x.iadd(no, x.isub(ol, x.ic(1))), es), mkSelect(oe, x.iadd(oo, x.isub(ol, x.ic(1))), es))))
+					}
+					st.mem[k] = x.vc.define("h", mkStore(x.get(st, k), nb, ne))
+					x.enc.assumption("external " + name + ": appends to its destination slice in place or into a fresh array; the destination's elements stay in front")
 					return []SV{r}
 				}
 			}
